@@ -490,3 +490,68 @@ func (c *Ctx) incrementDelta(env *lfEnv, s ast.Stmt) (target string, delta *poly
 	}
 	return "", nil, false
 }
+
+// lfUnit is a function body with the folding environment to read it in.
+type lfUnit struct {
+	fi  *FuncInfo
+	env *lfEnv
+}
+
+// lfUnits returns fi with its own environment, followed by the unexported helpers of the same
+// package fi calls (depth 1), each with an environment in which its parameters stand for the
+// caller's argument expressions: numeric parameters take the folded argument, the others its
+// canonical text. A computation moved into a helper then folds to the same normal form.
+func (c *Ctx) lfUnits(fi *FuncInfo) []lfUnit {
+	info := fi.Pkg.TypesInfo
+	env := c.newLFEnv(info, fi.Decl.Body)
+	units := []lfUnit{{fi, env}}
+	c.indexAccessors()
+	for _, call := range callsIn(fi.Decl.Body, true) {
+		g := calleeOf(info, call)
+		if g == nil || g == fi.Obj || g.Exported() || g.Pkg() != fi.Obj.Pkg() {
+			continue
+		}
+		if _, isGetter := c.getters[g]; isGetter {
+			continue
+		}
+		if _, isSetter := c.setters[g]; isSetter {
+			continue
+		}
+		gi := c.FuncOfObj(g)
+		if gi == nil || gi.Decl.Body == nil {
+			continue
+		}
+		ginfo := gi.Pkg.TypesInfo
+		henv := c.newLFEnv(ginfo, gi.Decl.Body)
+		if henv.vals == nil {
+			henv.vals = map[types.Object]*poly{}
+		}
+		sig := g.Type().(*types.Signature)
+		if sig.Variadic() || sig.Params().Len() != len(call.Args) {
+			continue
+		}
+		for i, a := range call.Args {
+			p := paramObj(ginfo, gi.Decl, i)
+			if p == nil {
+				continue
+			}
+			if b, ok := p.Type().Underlying().(*types.Basic); ok && b.Info()&types.IsNumeric != 0 {
+				if v, err := env.fold(a); err == nil {
+					henv.vals[p] = v
+					if at, q, ok := v.singleAtom(); ok && q.Cmp(big.NewRat(1, 1)) == 0 {
+						henv.o.subst[p] = at // the parameter is just a name for that value: guards on it read the same
+					}
+					continue
+				}
+			}
+			henv.o.subst[p] = c.canon(info, a, env.o)
+		}
+		if sig.Recv() != nil && gi.Decl.Recv != nil && len(gi.Decl.Recv.List) == 1 && len(gi.Decl.Recv.List[0].Names) == 1 {
+			if sel, ok := unparen(call.Fun).(*ast.SelectorExpr); ok {
+				henv.o.subst[ginfo.Defs[gi.Decl.Recv.List[0].Names[0]]] = c.canon(info, sel.X, env.o)
+			}
+		}
+		units = append(units, lfUnit{gi, henv})
+	}
+	return units
+}
